@@ -25,6 +25,7 @@ from typing import Sized
 from typing import TextIO
 from typing import Union
 
+from . import _verif
 from .exceptions import ContextDepthError
 from .exceptions import LiquidError
 from .exceptions import LocalNamespaceLimitError
@@ -175,6 +176,7 @@ class RenderContext:
         """
         it = iter(path)
         root = next(it)
+        if _verif.ENABLED: _verif.emit("get", path=path, **_verif.lookup(self, root, token))  # fmt: skip  # noqa: E701
 
         if not isinstance(root, str):
             if default == UNDEFINED:
@@ -222,6 +224,7 @@ class RenderContext:
         """
         it = iter(path)
         root = next(it)
+        if _verif.ENABLED: _verif.emit("get", path=path, **_verif.lookup(self, root, token))  # fmt: skip  # noqa: E701
 
         if not isinstance(root, str):
             if default == UNDEFINED:
@@ -261,6 +264,7 @@ class RenderContext:
         This is like `get`, but does a single, top-level lookup rather than a
         chained lookup from a sequence of keys.
         """
+        if _verif.ENABLED: _verif.emit("resolve", **_verif.lookup(self, name, token))  # fmt: skip  # noqa: E701
         return self._resolve(name, token=token, default=default)
 
     def _resolve(
